@@ -15,11 +15,17 @@ use std::mem::MaybeUninit;
 use std::num::NonZeroU32;
 use std::ptr;
 use std::ptr::NonNull;
+#[cfg(not(isographlabs_isograph_verif_loom))]
 use std::sync::atomic::AtomicPtr;
+#[cfg(not(isographlabs_isograph_verif_loom))]
 use std::sync::atomic::AtomicU32;
+#[cfg(not(isographlabs_isograph_verif_loom))]
 use std::sync::atomic::Ordering;
 
+#[cfg(not(isographlabs_isograph_verif_loom))]
 use parking_lot::Mutex;
+#[cfg(isographlabs_isograph_verif_loom)]
+use crate::verif_sync::{AtomicPtr, AtomicU32, Mutex, Ordering};
 
 const MIN_SHIFT: u32 = 7;
 const U32_BITS: usize = 32;
@@ -255,7 +261,10 @@ impl<'a, T> AtomicArena<'a, T> {
                 AtomicPtr::new(ptr::null_mut()),
                 AtomicPtr::new(ptr::null_mut()),
             ],
+            #[cfg(not(isographlabs_isograph_verif_loom))]
             bucket_alloc_mutex: parking_lot::const_mutex(()),
+            #[cfg(isographlabs_isograph_verif_loom)]
+            bucket_alloc_mutex: crate::verif_sync::const_mutex(()),
         }
     }
 
@@ -394,6 +403,18 @@ impl<'a, T> AtomicArena<'a, T> {
             let r: &MaybeUninit<T> = &*e_ptr.add(b as usize);
             &*r.as_ptr()
         }
+    }
+}
+
+#[cfg(isographlabs_isograph_verif_loom)]
+impl<'a, T> AtomicArena<'a, T> {
+    /// Verification hook: register every lazily created loom object from the calling thread.
+    pub fn verif_force_init(&self) {
+        self.next_biased_index.verif_force_init();
+        for b in self.buckets.iter() {
+            b.verif_force_init();
+        }
+        self.bucket_alloc_mutex.verif_force_init();
     }
 }
 
@@ -655,7 +676,10 @@ impl<T> AtomicArena<'static, T> {
                 AtomicPtr::new(ptr::null_mut()),
                 AtomicPtr::new(p),
             ],
+            #[cfg(not(isographlabs_isograph_verif_loom))]
             bucket_alloc_mutex: parking_lot::const_mutex(()),
+            #[cfg(isographlabs_isograph_verif_loom)]
+            bucket_alloc_mutex: crate::verif_sync::const_mutex(()),
         }
     }
 }
